@@ -29,7 +29,7 @@ import (
 )
 
 type c10Op struct {
-	Op      string `json:"op"` // start stop selfend request wstart wstop archive wait reconf failnext
+	Op      string `json:"op"` // start stop selfend request wstart wstop archive wait reconf failnext garbage
 	K       int    `json:"k,omitempty"`
 	Stagger []int  `json:"stagger_us,omitempty"`
 	Kind    string `json:"kind,omitempty"`
@@ -407,7 +407,7 @@ func c10Run(c c10Case) (v vVerdict) {
 	writing := false
 	failNext := ""
 	nchan := c.Nchan
-	concurrentStops, postSelfStops, restarts, forced := 0, 0, 0, 0
+	concurrentStops, postSelfStops, restarts, forced, garbage := 0, 0, 0, 0, 0
 	defer func() {
 		if e.udpStop != nil {
 			close(e.udpStop)
@@ -678,6 +678,29 @@ func c10Run(c c10Case) (v vVerdict) {
 			}, 8*time.Second)
 		case "wait":
 			time.Sleep(time.Duration(1+op.N%10) * time.Millisecond)
+		case "garbage":
+			// a UDP port receives whatever arrives: a datagram that is not a data packet (port scan, wrong sender) must be
+			// just noise - Stop still returns, the source still restarts (nothing else is asserted about it)
+			if e.udpPort == 0 || !running {
+				continue
+			}
+			port := e.udpPort
+			if e.udpPort2 != 0 && op.N%2 == 1 {
+				port = e.udpPort2
+			}
+			if conn, err := net.Dial("udp", fmt.Sprintf("127.0.0.1:%d", port)); err == nil {
+				switch op.Kind {
+				case "shorthdr": // right magic, impossible header length
+					conn.Write([]byte{0x10, 3, 0, 0, 0x08, 0xff, 0x00, 0xee, 0, 0, 0, 1, 0, 0, 0, 9})
+				case "tiny":
+					conn.Write([]byte{1, 2, 3})
+				default: // text, e.g. a scanner's probe
+					conn.Write([]byte("GET / HTTP/1.0\r\n\r\n"))
+				}
+				conn.Close()
+				garbage++
+				time.Sleep(time.Duration(1+op.N%120) * time.Millisecond)
+			}
 		case "reconf":
 			if e.ds.GetState() != Inactive || c.Source == "erroring" {
 				continue
@@ -721,6 +744,9 @@ func c10Run(c c10Case) (v vVerdict) {
 	}
 	if forced > 0 {
 		v.Classes = append(v.Classes, "forced-stop-vs-end-interleaving")
+	}
+	if garbage > 0 {
+		v.Classes = append(v.Classes, "garbage-datagram")
 	}
 	v.Classes = append(v.Classes, "source-"+c.Source)
 	return v
@@ -768,6 +794,9 @@ func c10Gen(t *rapid.T) c10Case {
 				c.Ops = append(c.Ops, c10Op{Op: "archive", N: rapid.SampledFrom([]int{50, 500, 1000000}).Draw(t, "archn")})
 			default:
 				c.Ops = append(c.Ops, c10Op{Op: "wait", N: rapid.IntRange(0, 9).Draw(t, "waitn")})
+			}
+			if (c.Source == "udp" || c.Source == "udp2") && rapid.IntRange(0, 3).Draw(t, "garbage") == 0 {
+				c.Ops = append(c.Ops, c10Op{Op: "garbage", Kind: rapid.SampledFrom([]string{"text", "shorthdr", "tiny"}).Draw(t, "gkind"), N: rapid.IntRange(0, 400).Draw(t, "gn")})
 			}
 		}
 		if c.Source == "scripted" && rapid.IntRange(0, 2).Draw(t, "selfend") == 0 {
